@@ -1,4 +1,5 @@
 import AkVerif.Lemmas.ColorsConfHist
+import AkVerif.Model.ColorsConfGlobal
 /-!
 Lemmas for C14, fourth part: the configuration as the global one and synced palettes (model part 6).
 
